@@ -282,9 +282,11 @@ StepDiscard(m, e) ==
 ExpectMsgs(m, j, last) ==
     LET F == m.sc.frames
         ctl == SelectSeq([i \in 1..(last - j + 1) |-> j + i - 1], LAMBDA i : IsControl(F[i].op))
-    IN IF IsControl(F[j].op) THEN <<[op |-> F[j].op, pay |-> F[j].pay]>>
-       ELSE [i \in 1..Len(ctl) |-> [op |-> F[ctl[i]].op, pay |-> F[ctl[i]].pay]]
-            \o <<[op |-> F[j].op, pay |-> DataOf(F, j, last)]>>
+    IN IF IsControl(F[j].op) THEN <<[op |-> F[j].op, pay |-> F[j].pay, lo |-> -1, hi |-> -1]>>
+       ELSE [i \in 1..Len(ctl) |-> [op |-> F[ctl[i]].op, pay |-> F[ctl[i]].pay, lo |-> -1, hi |-> -1]]
+            \o <<IF m.sc.coded   \* position-coded payloads are named by their range
+                 THEN [op |-> F[j].op, pay |-> <<>>, lo |-> F[j].base, hi |-> F[last].base + F[last].len]
+                 ELSE [op |-> F[j].op, pay |-> DataOf(F, j, last), lo |-> -1, hi |-> -1]>>
 
 StepReadMessage(m, e) ==
     LET F == m.sc.frames
@@ -313,7 +315,7 @@ StepReadMessage(m, e) ==
            <<hit => e.err # "nil" /\ fi2 = m.badIdx, "reader went past the offending frame">>,
            <<e.err = "invalid_utf8" => text /\ (~valid \/ ~StreamAlive(PulledData(F, j, IF last <= Len(F) THEN last ELSE Len(F), P))),
              "valid text reported as invalid UTF-8">>,
-           <<e.err # "nil" => \A i \in 1..Len(e.msgs) : e.msgs[i] \in {[op |-> F[k].op, pay |-> F[k].pay] : k \in {k2 \in j..(IF fi2 < Len(F) THEN fi2 ELSE Len(F)) : IsControl(F[k2].op)}},
+           <<e.err # "nil" => \A i \in 1..Len(e.msgs) : e.msgs[i] \in {[op |-> F[k].op, pay |-> F[k].pay, lo |-> -1, hi |-> -1] : k \in {k2 \in j..(IF fi2 < Len(F) THEN fi2 ELSE Len(F)) : IsControl(F[k2].op)}},
              "failed ReadMessage returned something that is not a whole control frame">> >>),
         !.fi = fi2, !.pulled = P, !.dead = e.err # "nil"]
 
